@@ -63,6 +63,8 @@ def run(ctx):
     r5 = ctx.rule("C17.R5", "ORDER/EFFECT: in apply, verify(spec) dominates the patch application, the patch is applied not in place, the result is wrapped in Workspace", "ORDER", floor=3)
     r6 = ctx.rule("C17.R6", "SEMANTIC: PatchSet / Patch / utils.digest INTERPRETED (object model; jsonpatch.JsonPatch, json.dumps and hashlib modelled): a set with an EMPTY patch, a patch NAMED 'name' and an ordinary one is built; every patch is returned by exactly its name, its value tuple and its value list, unknown keys raise InvalidPatchLookup; duplicate names, duplicate values and a wrong value count are refused with InvalidPatchSet; verify accepts the recorded workspace and any key-reordering of it (also inside lists), rejects a changed one under either algorithm, also when the SAME object was verified before and then changed; apply verifies first, returns Workspace(patched copy) and leaves its input untouched", "SEMANTIC", floor=8)
     r7 = ctx.rule("C17.R7", "MEMO-STATE (effect rule): no memoised function (functools.lru_cache / cache) on the validation path -- schema/validator.py, schema/loader.py, schema/__init__.py, patchset.py, utils.py, workspace.py -- reads, itself or through the package functions it calls, module state that is switched at run time (the schema directory and schema store that `pyhf.schema(path)` swaps, the current backend): what was validated under one schema directory must not decide what is accepted under another", "EFFECT", floor=1)
+    r8 = ctx.rule("C17.R8", "SCHEMA-VALUES: the shipped patch-set schema (src/pyhf/schemas/<version>/defs.json, definitions.patchset.patch.metadata) admits ARBITRARY value tuples: `values` is an array whose items may be numbers, and no keyword restricts which numbers, how many, or whether coordinates repeat (uniqueItems, min/maxItems, enum, const, contains, not, numeric bounds ...); annotations (description, title, examples, $comment, default) are free", "SCHEMA", floor=1)
+    _schema_values(ctx, r8, repo)
     from .. import memo
     ctx.extra["memoised_functions_on_the_validation_path"] = memo.check(ctx, r7, ["src/pyhf/schema/validator.py", "src/pyhf/schema/loader.py", "src/pyhf/schema/__init__.py", "src/pyhf/schema/variables.py", "src/pyhf/patchset.py", "src/pyhf/utils.py", "src/pyhf/workspace.py"])
     _semantic(ctx, r6, repo)
@@ -511,3 +513,52 @@ def _semantic(ctx, rid, repo):
                 ctx.violated(rid, psc.methods["apply"], "apply with an unknown key", f"raises {e.exc_name}")
     except errs as e:
         ctx.unrecognised(rid, psc, "verify / apply", f"not interpretable: {type(e).__name__}: {e}")
+
+
+def _schema_values(ctx, rid, repo):
+    import json
+    ANNOT = {"description", "title", "examples", "$comment", "default", "$id"}
+    root = repo.root / "src" / "pyhf" / "schemas"
+    files = sorted(root.glob("*/defs.json"))
+    if not files:
+        ctx.unrecognised(rid, repo.module(PS), "schemas/*/defs.json", "no shipped schema definitions found")
+        return
+    for fpath in files:
+        rel = fpath.relative_to(repo.root).as_posix()
+        ctx.files_analysed.add(rel) if hasattr(ctx, "files_analysed") and isinstance(ctx.files_analysed, set) else None
+        site = f"{rel}::definitions.patchset.patch.metadata.values"
+        try:
+            doc = json.loads(fpath.read_text(encoding="utf-8"))
+            meta = doc["definitions"]["patchset"]["patch"]["properties"]["metadata"]
+            values = meta["properties"]["values"]
+        except (KeyError, TypeError, ValueError) as e:
+            ctx.unrecognised(rid, repo.module(PS), site, f"the patch metadata definition is not where this rule looks for it: {type(e).__name__}: {e}")
+            continue
+        if "$ref" in values:
+            ctx.unrecognised(rid, repo.module(PS), site, "`values` is defined by reference; this rule reads inline definitions only")
+            continue
+        problems = []
+        if values.get("type") != "array":
+            problems.append(f"type is {values.get('type')!r}, not 'array'")
+        extra = sorted(set(values) - {"type", "items"} - ANNOT)
+        if extra:
+            problems.append(f"restricting keyword(s) {extra} on the tuple")
+        items = values.get("items", {})
+        alts = items.get("anyOf") or items.get("oneOf") or [items]
+        numeric = [a for a in alts if isinstance(a, dict) and a.get("type") in ("number", ["number"]) ] if isinstance(alts, list) else []
+        if isinstance(items, dict) and items and not numeric and items != {}:
+            problems.append("no alternative of `items` admits a plain number")
+        for a in numeric:
+            ex = sorted(set(a) - {"type"} - ANNOT)
+            if ex:
+                problems.append(f"restricting keyword(s) {ex} on the numbers")
+        if isinstance(items, dict):
+            ex = sorted(set(items) - {"anyOf", "oneOf", "type"} - ANNOT)
+            if ex:
+                problems.append(f"restricting keyword(s) {ex} on the items")
+        if "values" not in meta.get("required", []):
+            pass  # optional or required: not this rule's business
+        if problems:
+            ctx.violated(rid, repo.module(PS), site, "the shipped schema no longer admits arbitrary numeric value tuples for a patch: " + "; ".join(problems) + " -- a patch set whose names and value tuples are pairwise distinct is refused (e.g. a grid point with two equal coordinates)", expected='{"type": "array", "items": {"anyOf": [{"type": "number"}, ...]}} and annotations only', found=json.dumps(values)[:200])
+        else:
+            ctx.holds(rid, site, f"array of {json.dumps(items)[:80]}; no restricting keyword")
